@@ -25,6 +25,7 @@ type Profile struct {
 	Hash            Hash    // digest for the certificate signature, the LDS hash list, the SignerInfo
 	PSSOmitDefaults bool    // RSASSA-PSS-params in strict DER (defaults omitted) instead of the fully explicit form
 	PSSSaltLen      int     // 0 = hash length
+	CSCATwoOUs      bool    // the CSCA's name carries TWO organizationalUnitName attributes (a repeated attribute type)
 }
 
 func (p Profile) String() string {
@@ -55,7 +56,7 @@ var (
 // NewIssuer creates (and memoises per profile) the CSCA certificate (self-signed, CA, pathLen 0, keyCertSign+cRLSign)
 // and a DS certificate (digitalSignature, AKI = CSCA SKI) for the profile. Keys come from LoadKey.
 func NewIssuer(p Profile) *Issuer {
-	id := fmt.Sprintf("%s|%v|%d", p.String(), p.PSSOmitDefaults, p.PSSSaltLen)
+	id := fmt.Sprintf("%s|%v|%d|%v", p.String(), p.PSSOmitDefaults, p.PSSSaltLen, p.CSCATwoOUs)
 	issuerMu.Lock()
 	defer issuerMu.Unlock()
 	if is := issuerCache[id]; is != nil {
@@ -63,6 +64,9 @@ func NewIssuer(p Profile) *Issuer {
 	}
 	is := &Issuer{Profile: p, CSCAKey: LoadKey(p.CSCA), DSKey: LoadKey(p.DS)}
 	is.CSCAName = NewName(p.Country, "Reference State", "Passport Authority", "CSCA "+p.Country)
+	if p.CSCATwoOUs {
+		is.CSCAName = Name{is.CSCAName[0], is.CSCAName[1], is.CSCAName[2], Attr{OIDOrgUnit, "Identity Documents Division", 0x0C}, is.CSCAName[3]}
+	}
 	is.DSName = NewName(p.Country, "Reference State", "Document Signer", "DS 01")
 	is.CSCACert = IssueCert(CertSpec{
 		Serial: big.NewInt(1), Issuer: is.CSCAName, Subject: is.CSCAName,
